@@ -96,7 +96,7 @@ pub fn step_family(ctx: &mut Ctx) {
     let maxd = 5;
     for ed in 0..=maxd.min(3) {
         for cd in 0..=2usize {
-            for x in [vec![], vec![(0usize, 0usize)], vec![(0, 2)], vec![(1, 2), (5, 9)], vec![(2, 2), (0, 1)], vec![(5, 3)], vec![(3, 0), (0, 2)], vec![(usize::MAX, 0)]] {
+            for x in [vec![], vec![(0usize, 0usize)], vec![(0, 2)], vec![(1, 2), (5, 9)], vec![(2, 2), (0, 1)], vec![(5, 3)], vec![(3, 0), (0, 2)], vec![(usize::MAX, 0)], vec![(2, 2), (0, 0)], vec![(1, 2), (3, 3), (0, 0)], vec![(3, 3), (5, 3), (1, 1)]] {
                 for iv in [vec![], vec![vec![]], vec![vec![7]], vec![vec![7, 8], vec![9]]] {
                     let mut m0 = M::default();
                     m0.e = (0..ed).map(distinct_code).collect();
@@ -547,7 +547,7 @@ fn mixed_tokens(real: &Real) -> Vec<Tree> {
 }
 
 /// judgement of ONE interpreter step in the state the real execution has reached
-fn judge_step(m: &M, out: &Outcome) -> Verdict {
+pub fn judge_step(m: &M, out: &Outcome) -> Verdict {
     match m.e.first() {
         None => Verdict::Pass,
         Some(Tree::Ins(name)) => {
